@@ -1196,7 +1196,8 @@ impl<'a, W: AsRef<[u64]>> YamlCursor<'a, W> {
                 _ => self.find_scalar_end(start),
             }
         };
-        Some(&self.text[start..end.min(self.text.len())])
+        // `get`, not indexing: the computed container end can precede `start`.
+        self.text.get(start..end.min(self.text.len()))
     }
 
     fn find_double_quote_end(&self, start: usize) -> usize {
